@@ -43,6 +43,8 @@ IterOk(e) ==
 
 AllowedHere(p, e) ==
     CASE p = "C02" -> Allowed_C02(ps, e)
+      [] p = "C05" -> Allowed_C05c(cfg, ps, e)
+      [] p = "C06" -> Allowed_C06c(cfg, ps, e)
       [] p = "C09" -> /\ e.ev # "Timeout"
                       /\ e.ev = "Final" => open = {}          \* every invoked operation returned
                       /\ e.ev = "Burst" => e.completed = e.ops
@@ -57,8 +59,16 @@ AllowedHere(p, e) ==
                  IF "exact" \in DOMAIN e /\ e.exact THEN e.count <= e.cap + e.wlog + e.threads
                  ELSE e.count <= e.cap + 2 * (e.wlog + e.threads)
             ELSE e.count <= e.cap
-      [] p = "C03" -> e.ev = "Refill" => e.kept = e.want
-      [] p = "C16" -> e.ev = "IterRun" => IterOk(e)
+      [] p = "C03" -> /\ e.ev = "Refill" => e.kept = e.want
+                      /\ Allowed_C03c(cfg, ps, e)          \* (a) nothing unambiguously last is missing at the end
+                      \* (b) the probe: a fresh key weighing exactly the room left gets in, nobody leaves
+                      /\ e.ev = "Probe" =>
+                            /\ \E j \in DOMAIN e.after : e.after[j].k = e.k /\ e.after[j].v = e.v
+                            /\ \A i \in DOMAIN e.before :
+                                  \E j \in DOMAIN e.after : e.after[j].k = e.before[i].k /\ e.after[j].v = e.before[i].v
+      [] p = "C16" -> /\ e.ev = "IterRun" => IterOk(e)
+                      /\ Allowed_C03c(cfg, ps, e)          \* the final iteration omits nothing that is surely live
+                      /\ e.ev = "Final" => NoDup([i \in DOMAIN e.items |-> e.items[i].k])
       [] p \in SeqProps ->
             IF e.ev \in {"Sync", "End", "Panic", "Crash"}
             THEN M!AllowedBy(p, M!HInit(cfg), M!InitSnap(cfg), e) ELSE TRUE
@@ -66,10 +76,12 @@ AllowedHere(p, e) ==
 
 NonTrivial(p, e) ==
     CASE p = "C02" -> (e.ev = "Ret" /\ e.r # None /\ \E q \in ps.gets : q.id = e.id) \/ e.ev = "Final"
+      [] p = "C05" -> NT_C05c(cfg, ps, e) /\ e.r # None
+      [] p = "C06" -> NT_C06c(cfg, ps, e) /\ e.r # None
       [] p = "C09" -> e.ev \in {"Ret", "Final", "Timeout", "Burst", "Settled"}
       [] p = "C04" /\ e.ev \in {"Overshoot", "Settled"} -> e.cap # None
-      [] p = "C03" -> e.ev = "Refill"
-      [] p = "C16" -> e.ev = "IterRun"
+      [] p = "C03" -> e.ev \in {"Refill", "Probe", "Final"}
+      [] p = "C16" -> e.ev \in {"IterRun", "Final"}
       [] OTHER -> e.ev \in {"Sync", "End"}
 
 Next ==
